@@ -87,4 +87,86 @@ def ids : List (Nat × List Char) := [
   (470846378, [Char.ofNat 116, Char.ofNat 115, Char.ofNat 112])   -- volume::TEA_SPOON tsp
 ]
 
+/-- `(identifier, singular, plural)` display names -/
+def names : List (Nat × List Char × List Char) := [
+  (2863985516, [Char.ofNat 97], [Char.ofNat 97]),
+  (2082853468, [Char.ofNat 66, Char.ofNat 113], [Char.ofNat 66, Char.ofNat 113]),
+  (4118630549, [Char.ofNat 67], [Char.ofNat 67]),
+  (3466881141, [Char.ofNat 70], [Char.ofNat 70]),
+  (3089834321, [Char.ofNat 103], [Char.ofNat 103]),
+  (1611201717, [Char.ofNat 71, Char.ofNat 121], [Char.ofNat 71, Char.ofNat 121]),
+  (4012288469, [Char.ofNat 72], [Char.ofNat 72]),
+  (2521157679, [Char.ofNat 107, Char.ofNat 97, Char.ofNat 116], [Char.ofNat 107, Char.ofNat 97, Char.ofNat 116]),
+  (898832578, [Char.ofNat 108, Char.ofNat 109], [Char.ofNat 108, Char.ofNat 109]),
+  (2908765805, [Char.ofNat 108, Char.ofNat 120], [Char.ofNat 108, Char.ofNat 120]),
+  (353022001, [Char.ofNat 78], [Char.ofNat 78]),
+  (1281889753, [Char.ofNat 937], [Char.ofNat 937]),
+  (3581253485, [Char.ofNat 80, Char.ofNat 97], [Char.ofNat 80, Char.ofNat 97]),
+  (3631692201, [Char.ofNat 83], [Char.ofNat 83]),
+  (3440369467, [Char.ofNat 83, Char.ofNat 118], [Char.ofNat 83, Char.ofNat 118]),
+  (1147115270, [Char.ofNat 115, Char.ofNat 112], [Char.ofNat 115, Char.ofNat 112]),
+  (1930761383, [Char.ofNat 84], [Char.ofNat 84]),
+  (1205679580, [Char.ofNat 118], [Char.ofNat 118]),
+  (658988256, [Char.ofNat 86], [Char.ofNat 86]),
+  (2843211920, [Char.ofNat 87], [Char.ofNat 87]),
+  (1774873610, [Char.ofNat 87, Char.ofNat 98], [Char.ofNat 87, Char.ofNat 98]),
+  (3829888978, [Char.ofNat 97, Char.ofNat 99, Char.ofNat 114, Char.ofNat 101], [Char.ofNat 97, Char.ofNat 99, Char.ofNat 114, Char.ofNat 101, Char.ofNat 115]),
+  (3207462927, [Char.ofNat 104, Char.ofNat 97], [Char.ofNat 104, Char.ofNat 97]),
+  (4048801938, [Char.ofNat 112, Char.ofNat 101, Char.ofNat 114, Char.ofNat 99, Char.ofNat 104], [Char.ofNat 112, Char.ofNat 101, Char.ofNat 114, Char.ofNat 99, Char.ofNat 104, Char.ofNat 101, Char.ofNat 115]),
+  (542383331, [Char.ofNat 114, Char.ofNat 111, Char.ofNat 111, Char.ofNat 100], [Char.ofNat 114, Char.ofNat 111, Char.ofNat 111, Char.ofNat 100, Char.ofNat 115]),
+  (3481565844, [Char.ofNat 98, Char.ofNat 116, Char.ofNat 117], [Char.ofNat 98, Char.ofNat 116, Char.ofNat 117, Char.ofNat 115]),
+  (8051841, [Char.ofNat 101, Char.ofNat 86], [Char.ofNat 101, Char.ofNat 86]),
+  (3766052723, [Char.ofNat 74], [Char.ofNat 74]),
+  (3348159317, [Char.ofNat 97, Char.ofNat 117], [Char.ofNat 97, Char.ofNat 117]),
+  (3553165344, [Char.ofNat 66, Char.ofNat 99], [Char.ofNat 66, Char.ofNat 99]),
+  (3642302754, [Char.ofNat 99, Char.ofNat 97, Char.ofNat 98, Char.ofNat 108, Char.ofNat 101], [Char.ofNat 99, Char.ofNat 97, Char.ofNat 98, Char.ofNat 108, Char.ofNat 101, Char.ofNat 115]),
+  (3906701589, [Char.ofNat 99, Char.ofNat 104], [Char.ofNat 99, Char.ofNat 104]),
+  (1356152752, [Char.ofNat 102, Char.ofNat 116, Char.ofNat 109], [Char.ofNat 102, Char.ofNat 116, Char.ofNat 109]),
+  (3553165313, [Char.ofNat 102, Char.ofNat 116], [Char.ofNat 102, Char.ofNat 116]),
+  (3553165376, [Char.ofNat 102, Char.ofNat 117, Char.ofNat 114], [Char.ofNat 102, Char.ofNat 117, Char.ofNat 114]),
+  (3553165360, [Char.ofNat 104, Char.ofNat 97, Char.ofNat 110, Char.ofNat 100], [Char.ofNat 104, Char.ofNat 97, Char.ofNat 110, Char.ofNat 100]),
+  (3553165312, [Char.ofNat 105, Char.ofNat 110], [Char.ofNat 105, Char.ofNat 110]),
+  (3553165316, [Char.ofNat 108, Char.ofNat 101, Char.ofNat 97], [Char.ofNat 108, Char.ofNat 101, Char.ofNat 97]),
+  (2518177391, [Char.ofNat 108, Char.ofNat 105, Char.ofNat 110, Char.ofNat 107], [Char.ofNat 108, Char.ofNat 105, Char.ofNat 110, Char.ofNat 107, Char.ofNat 115]),
+  (3553165315, [Char.ofNat 109, Char.ofNat 105], [Char.ofNat 109, Char.ofNat 105]),
+  (3613916546, [Char.ofNat 78, Char.ofNat 77], [Char.ofNat 78, Char.ofNat 77]),
+  (2060832621, [Char.ofNat 114, Char.ofNat 100], [Char.ofNat 114, Char.ofNat 100]),
+  (3553165328, [Char.ofNat 116, Char.ofNat 104], [Char.ofNat 116, Char.ofNat 104]),
+  (3553165314, [Char.ofNat 121, Char.ofNat 100], [Char.ofNat 121, Char.ofNat 100]),
+  (2505588576, [Char.ofNat 68, Char.ofNat 97], [Char.ofNat 68, Char.ofNat 97]),
+  (2740530060, [Char.ofNat 100, Char.ofNat 114], [Char.ofNat 100, Char.ofNat 114]),
+  (4096923961, [Char.ofNat 103, Char.ofNat 114], [Char.ofNat 103, Char.ofNat 114]),
+  (4185545088, [Char.ofNat 104, Char.ofNat 117, Char.ofNat 110, Char.ofNat 100, Char.ofNat 114, Char.ofNat 101, Char.ofNat 100, Char.ofNat 119, Char.ofNat 101, Char.ofNat 105, Char.ofNat 103, Char.ofNat 104, Char.ofNat 116], [Char.ofNat 104, Char.ofNat 117, Char.ofNat 110, Char.ofNat 100, Char.ofNat 114, Char.ofNat 101, Char.ofNat 100, Char.ofNat 119, Char.ofNat 101, Char.ofNat 105, Char.ofNat 103, Char.ofNat 104, Char.ofNat 116]),
+  (2084259802, [Char.ofNat 111, Char.ofNat 122], [Char.ofNat 111, Char.ofNat 122]),
+  (3762825782, [Char.ofNat 108, Char.ofNat 98], [Char.ofNat 108, Char.ofNat 98]),
+  (553023611, [Char.ofNat 113, Char.ofNat 114], [Char.ofNat 113, Char.ofNat 114]),
+  (686486555, [Char.ofNat 115, Char.ofNat 108, Char.ofNat 117, Char.ofNat 103], [Char.ofNat 115, Char.ofNat 108, Char.ofNat 117, Char.ofNat 103]),
+  (3358063885, [Char.ofNat 115, Char.ofNat 116], [Char.ofNat 115, Char.ofNat 116]),
+  (3434832998, [Char.ofNat 116], [Char.ofNat 116]),
+  (2065028312, [Char.ofNat 116, Char.ofNat 111, Char.ofNat 110], [Char.ofNat 116, Char.ofNat 111, Char.ofNat 110, Char.ofNat 115]),
+  (3728342790, [Char.ofNat 176, Char.ofNat 67], [Char.ofNat 176, Char.ofNat 67]),
+  (981617578, [Char.ofNat 176, Char.ofNat 70], [Char.ofNat 176, Char.ofNat 70]),
+  (1021980672, [Char.ofNat 99, Char.ofNat 101, Char.ofNat 110, Char.ofNat 116, Char.ofNat 117, Char.ofNat 114, Char.ofNat 121], [Char.ofNat 99, Char.ofNat 101, Char.ofNat 110, Char.ofNat 116, Char.ofNat 117, Char.ofNat 114, Char.ofNat 105, Char.ofNat 101, Char.ofNat 115]),
+  (1021968387, [Char.ofNat 100, Char.ofNat 121], [Char.ofNat 100, Char.ofNat 121]),
+  (1021976576, [Char.ofNat 100, Char.ofNat 101, Char.ofNat 99, Char.ofNat 97, Char.ofNat 100, Char.ofNat 101], [Char.ofNat 100, Char.ofNat 101, Char.ofNat 99, Char.ofNat 97, Char.ofNat 100, Char.ofNat 101, Char.ofNat 115]),
+  (1021968385, [Char.ofNat 104, Char.ofNat 114], [Char.ofNat 104, Char.ofNat 114]),
+  (1021984768, [Char.ofNat 109, Char.ofNat 105, Char.ofNat 108, Char.ofNat 108, Char.ofNat 101, Char.ofNat 110, Char.ofNat 105, Char.ofNat 117, Char.ofNat 109], [Char.ofNat 109, Char.ofNat 105, Char.ofNat 108, Char.ofNat 108, Char.ofNat 101, Char.ofNat 110, Char.ofNat 105, Char.ofNat 97]),
+  (1021968384, [Char.ofNat 109, Char.ofNat 105, Char.ofNat 110], [Char.ofNat 109, Char.ofNat 105, Char.ofNat 110]),
+  (1021968389, [Char.ofNat 109, Char.ofNat 116, Char.ofNat 104], [Char.ofNat 109, Char.ofNat 116, Char.ofNat 104]),
+  (1021968388, [Char.ofNat 119, Char.ofNat 107], [Char.ofNat 119, Char.ofNat 107]),
+  (1021972480, [Char.ofNat 121, Char.ofNat 114], [Char.ofNat 121, Char.ofNat 114]),
+  (3360971096, [Char.ofNat 107, Char.ofNat 116], [Char.ofNat 107, Char.ofNat 116]),
+  (2390987750, [Char.ofNat 99], [Char.ofNat 99]),
+  (3010028704, [Char.ofNat 99, Char.ofNat 99], [Char.ofNat 99, Char.ofNat 99]),
+  (470846374, [Char.ofNat 99, Char.ofNat 117, Char.ofNat 112], [Char.ofNat 99, Char.ofNat 117, Char.ofNat 112, Char.ofNat 115]),
+  (470846376, [Char.ofNat 102, Char.ofNat 108, Char.ofNat 32, Char.ofNat 111, Char.ofNat 122], [Char.ofNat 102, Char.ofNat 108, Char.ofNat 32, Char.ofNat 111, Char.ofNat 122, Char.ofNat 115]),
+  (470846371, [Char.ofNat 103, Char.ofNat 97, Char.ofNat 108, Char.ofNat 108, Char.ofNat 111, Char.ofNat 110], [Char.ofNat 103, Char.ofNat 97, Char.ofNat 108, Char.ofNat 108, Char.ofNat 111, Char.ofNat 110, Char.ofNat 115]),
+  (470846375, [Char.ofNat 103, Char.ofNat 105, Char.ofNat 108, Char.ofNat 108], [Char.ofNat 103, Char.ofNat 105, Char.ofNat 108, Char.ofNat 108, Char.ofNat 115]),
+  (470846370, [Char.ofNat 108], [Char.ofNat 108]),
+  (470846372, [Char.ofNat 112, Char.ofNat 105, Char.ofNat 110, Char.ofNat 116], [Char.ofNat 112, Char.ofNat 105, Char.ofNat 110, Char.ofNat 116, Char.ofNat 115]),
+  (470846373, [Char.ofNat 113, Char.ofNat 117, Char.ofNat 97, Char.ofNat 114, Char.ofNat 116], [Char.ofNat 113, Char.ofNat 117, Char.ofNat 97, Char.ofNat 114, Char.ofNat 116, Char.ofNat 115]),
+  (470846377, [Char.ofNat 116, Char.ofNat 98, Char.ofNat 115, Char.ofNat 112], [Char.ofNat 116, Char.ofNat 98, Char.ofNat 115, Char.ofNat 112, Char.ofNat 115]),
+  (470846378, [Char.ofNat 116, Char.ofNat 115, Char.ofNat 112], [Char.ofNat 116, Char.ofNat 115, Char.ofNat 112, Char.ofNat 115])
+]
+
 end Anything.Spec.Pinned
